@@ -11,7 +11,7 @@ import muxcheck
 import muxgen
 
 LEVEL = "proof"
-CONE = ["Props/C17.v", "Proofs/MuxProofs.v", "Model/Writer.v"]
+CONE = ["Props/C17.v", "Proofs/MuxTotal.v", "Model/Writer.v"]
 U32 = 1 << 32
 
 
